@@ -139,6 +139,7 @@ db.Setting = step(d0.Setting)
 db.On = step(3)
 show(7)
 """,
+    "long_single_use": HDR + "\ndef work(a, b):\n    t = a\n    if b > 100:\n        return 0 - 1\n" + "".join(f"    t = t + {i % 7 + 1}\n    u = t - {i % 3}\n    t = u + a\n" for i in range(26)) + "    d2.Setting = t\n" + "    return t + b\n\ndb.Setting = work(d0.Setting, d1.Setting)\ndb.On = 1\n",
     "prefix_names": HDR + """
 def run(v):
     db.Setting = v
